@@ -331,10 +331,12 @@ impl Session {
                 for _ in 0..max(0, spawn_num) {
                     self.spawn_peer_handler();
                 }
+
+                // Tracker job is finished only after response, it retries after every fail
+                self.kill_tracker().await;
             }
             TrackerCmd::Fail(e) => self.log(format!("Tracker fail: {}", e)).await,
         }
-        self.kill_tracker().await;
     }
 
     async fn handle_extractor_cmd(&mut self, cmd: ExtractorCmd) {
